@@ -8,7 +8,7 @@ From Coq Require Import ZArith List Bool Lia.
 Require Import Bits.Lib.Result Bits.Lib.Bytes Bits.Model.Ecmath Bits.Proofs.Ecmath Bits.Proofs.Ecdsa
   Bits.Model.Base58 Bits.Model.Keys Bits.Model.Sec1 Bits.Model.Wif Bits.Model.Asn1 Bits.Model.Pem
   Bits.Proofs.Sec1 Bits.Proofs.Sec1Small Bits.Proofs.Wif Bits.Proofs.Asn1 Bits.Proofs.PemArmor Bits.Proofs.Pem
-  Bits.Proofs.SmallCurves.
+  Bits.Proofs.SmallCurves Bits.Model.CliKeys Bits.Proofs.CliKeys.
 Require Bits.Spec.Sec1 Bits.Spec.Wif Bits.Spec.Rfc5915 Bits.Spec.Secp256k1.
 Import ListNotations.
 Import Coq.Init.Byte.
@@ -68,6 +68,21 @@ Theorem C14_compressed_pubkey : forall p a b, sec1_facts p a b ->
     compressed_pubkey p a b (x04 :: X ++ Y) = Ok (Spec.Sec1.encode true (of_be X) (of_be Y)).
 Proof. intros p a b [SQ Ha Hb Hw _]. exact (compressed_pubkey_04 p a b SQ Ha Hb Hw). Qed.
 Print Assumptions C14_compressed_pubkey.
+
+(* the command line `bits pubkey` (model of that branch of __main__.main) on 33/65-byte input: accepts exactly the
+   valid encodings, answers pubkey(x, y, compressed) of the decoded point, refuses the rest in every flag combination *)
+Theorem C14_cli_pubkey_iff : forall b64enc p a b n G, sec1_facts p a b ->
+  forall data c out, length data = 33%nat \/ length data = 65%nat ->
+  (cli_pubkey b64enc p a b n G data c false = Ok out <->
+   exists x y, Spec.Sec1.valid_encoding p a b data x y /\ out = Spec.Sec1.encode c x y).
+Proof. exact cli_pubkey_sec1_iff. Qed.
+Print Assumptions C14_cli_pubkey_iff.
+
+Theorem C14_cli_pubkey_refuses : forall b64enc p a b n G data c pem e,
+  length data = 33%nat \/ length data = 65%nat ->
+  sec1_point p a b data = Err e -> cli_pubkey b64enc p a b n G data c pem = Err e.
+Proof. exact cli_pubkey_refuses. Qed.
+Print Assumptions C14_cli_pubkey_refuses.
 
 (* the premise holds outright on the three small curves *)
 Theorem C14_facts_43 : sec1_facts 43 0 7. Proof. exact sec1_facts_43. Qed.
